@@ -366,6 +366,9 @@ def run(ctx, tier, res, tag=''):
                 res.violation(key + tag, info)
             else:
                 res.undec(info)
+    from .. import promises
+    promises.report(ctx, res, [v for f in ctx.spec['formats'] if f.get('legacy') for k, v in f['legacy'].items() if k in ('get', 'set', 'init')],
+                    promises.MEMORY_KINDS, tag)
     res.rule = ('for the five legacy formats and every field: the value the deprecated reader stores (read back through the target '
                 'datalayout) must be bit-identical to the current reader, the PDU image after the deprecated writer/initialiser '
                 'identical to the current one, over symbolic buffers and values; alias macros and packed legacy structures are '
